@@ -431,7 +431,11 @@ def _view(it, a):
 def _astype(it, a):
     def astype(it_, dt, **kw):
         d = np_dtype(it_, dt)
-        return cast_array(it_, a, d)
+        r = cast_array(it_, a, d)
+        if is_unyt_array(a):
+            # ndarray.astype keeps the subclass (subok=True); __array_finalize__ copies units, name
+            return _rewrap(it_, r, a)
+        return r
     return Intrinsic("ndarray.astype", astype)
 
 
@@ -621,6 +625,19 @@ def _np_asarray(it, x, dtype=None, **kw):
     if isinstance(x, (list, tuple)):
         raise Unsupported("np.asarray of a python sequence")
     raise Unsupported("np.asarray(%r)" % (x,))
+
+
+@np_fn("numpy.result_type", "np.result_type(d, np.float64) for a float/complex dtype d: the wider of the two, "
+       "complex if d is complex (NumPy promotion)")
+def _np_result_type(it, *args):
+    if len(args) != 2 or not (isinstance(args[1], ExternalRef) and args[1].name == "numpy.float64"):
+        raise Unsupported("np.result_type%r" % (args,))
+    d = np_dtype(it, args[0])
+    k, n = to_z3(d.kind), to_z3(d.itemsize)
+    if it.branch(z3.Not(z3.Or(k == sv("f"), k == sv("c")))):
+        raise Unsupported("np.result_type of a non-float dtype")
+    return SDtype(z3.If(k == sv("c"), sv("c"), sv("f")),
+                  z3.If(k == sv("c"), z3.IntVal(16), z3.If(n > 8, n, z3.IntVal(8))))
 
 
 @np_fn("numpy.array", "np.array(x): always a fresh buffer holding the same values "
@@ -818,13 +835,32 @@ def cannot_cast_same_kind(result_kind, out_kind):
     return kind_rank(result_kind) > kind_rank(out_kind)
 
 
+
+UFUNC_ALIASES = {"true_divide": "divide", "abs": "absolute", "conj": "conjugate", "mod": "remainder"}
+
+
+def dispatch_array_ufunc(it, name, inputs, out, kw):
+    """NumPy hands a ufunc call with a unyt operand (or out= target) to the operand's
+    __array_ufunc__ (NEP 13): the library's own method, used here through its contract"""
+    for k in kw:
+        if kw[k] is not None:
+            raise Unsupported("np.%s keyword %s on unyt operands" % (name, k))
+    owner = next((o for o in list(inputs) + [out] if is_unyt_array(o)), None)
+    fi = it.repo.find_method(owner.cls, "__array_ufunc__")
+    if fi is None:
+        raise Unsupported("__array_ufunc__ not found")
+    kwargs = {"out": (out,)} if out is not None else {}
+    canon = UFUNC_ALIASES.get(name, name)
+    return it.call_funcinfo(fi, [owner, ExternalRef("numpy." + canon), "__call__"] + list(inputs), kwargs)
+
+
 def _ufunc2(name, op=None):
     fn = BINARY_UFUNCS[name]
 
     def f(it, x, y, out=None, **kw):
         x, y = const_float(x), const_float(y)
         if (is_unyt_array(x) or is_unyt_array(y) or is_unyt_array(out)):
-            raise Unsupported("np.%s on unyt arrays goes through __array_ufunc__ (contract)" % name)
+            return dispatch_array_ufunc(it, name, [x, y], out, kw)
         for k in kw:
             if k not in ("where", "casting", "order", "dtype", "subok", "axis", "axes", "keepdims"):
                 raise Unsupported("np.%s keyword %s" % (name, k))
@@ -918,7 +954,7 @@ def _ufunc1(name):
     def f(it, x, out=None, **kw):
         x = const_float(x)
         if is_unyt_array(x) or is_unyt_array(out):
-            raise Unsupported("np.%s on unyt arrays goes through __array_ufunc__ (contract)" % name)
+            return dispatch_array_ufunc(it, name, [x], out, kw)
         for k in kw:
             if k not in ("where", "casting", "order", "dtype", "subok"):
                 raise Unsupported("np.%s keyword %s" % (name, k))
@@ -1042,6 +1078,13 @@ def install(domain_cls):
                 nd = new_array(it, to_real(arr_elem(obj)) * t,
                                *promote_with_pyfloat(arr_kind(obj), arr_itemsize(obj)), obj, "scaled")
                 return _rewrap(it, nd, obj)
+        # ndarray's arithmetic operators are the ufuncs (unyt_array does not override them)
+        if "_buf" in obj.fields and op in ("*", "/") and it.contracts.get(
+                "unyt.array.unyt_array.__array_ufunc__") is not None \
+                and it.repo.find_method(obj.cls, {"*": "__mul__", "/": "__truediv__"}[op]) is None:
+            if is_unyt_array(other) or (not is_array(other) and scalar_term(it, other) is not None):
+                ins = [other, obj] if reflected else [obj, other]
+                return dispatch_array_ufunc(it, {"*": "multiply", "/": "divide"}[op], ins, None, {})
         return orig_binop(self, it, obj, op, other, reflected)
 
     domain_cls.obj_getattr = obj_getattr
